@@ -18,39 +18,42 @@ namespace RbModel.Gpos
     class bit of `glyph_props` is the `IGNORE_MARKS` lookup-flag bit and lies inside `IGNORE_FLAGS`. -/
 theorem C07_consts :
     ATTACH_MARK = RbModel.Gen.Gpos.attachMark ∧ ATTACH_CURSIVE = RbModel.Gen.Gpos.attachCursive ∧
+    MAX_NESTING_LEVEL = RbModel.Gen.Gpos.maxNestingLevel ∧
     RbModel.Gen.Gpos.gpMark = RbModel.Gen.Gpos.ignoreMarks ∧
     RbModel.Gen.Gpos.ignoreMarks &&& RbModel.Gen.Gpos.ignoreFlags = RbModel.Gen.Gpos.ignoreMarks ∧
     RbModel.Gen.Gpos.gpBaseGlyph &&& RbModel.Gen.Gpos.ignoreMarks = 0 := by
   decide
 
-/-! ## attachment propagation -/
+/-! ## attachment propagation (with HarfBuzz's nesting budget, `MAX_NESTING_LEVEL` = 64) -/
 
 /-- Every mark's anchor lands on the anchor of the glyph it is attached to: after
     `position_finish_offsets` (and the final reverse), in all directions, for every acyclic attachment
-    structure (marks and cursive links mixed, `rank` = any well-founded witness of acyclicity) whose marks
-    attach backwards (what `MarkArray::apply` produces).  `a.xo/a.yo` is what `MarkArray::apply` stored:
-    base anchor − mark anchor (theorem `C07_mark_apply_exact`).
-    The same statement also bounds the recursion: `dm ≤ (number of attached glyphs) + 1`. -/
+    structure — marks and cursive links mixed — whose chains are at most `MAX_NESTING_LEVEL` (64) links
+    long (`rank` = any height function: it decreases along every link and is ≤ 64) and whose marks attach
+    backwards (what `MarkArray::apply` produces).  `a.xo/a.yo` is what `MarkArray::apply` stored:
+    base anchor − mark anchor (theorem `C07_mark_apply_exact`). -/
 theorem C07_mark_coincide (d : Dir) (o : Array Pos) (len : Nat) (rank : Nat → Nat) (hlen : len ≤ o.size)
     (hacyc : ∀ (k : Nat) (a : Pos) (j : Nat), o[k]? = some a → a.chain ≠ 0 → target k a.chain len = some j →
       rank j < rank k)
+    (hdepth : ∀ k, k < len → rank k ≤ MAX_NESTING_LEVEL)
     (hmark : ∀ (k : Nat) (a : Pos) (j : Nat), o[k]? = some a → a.chain ≠ 0 → a.atype = ATTACH_MARK →
       target k a.chain len = some j → j < k) :
-    ∃ q dm, positionFinishOffsets o len d true = .ok (q, dm) ∧ dm ≤ nz o + 1 ∧
+    ∃ q dm, positionFinishOffsets o len d true = .ok (q, dm) ∧ dm ≤ MAX_NESTING_LEVEL + 1 ∧
       ∀ (i : Nat) (a : Pos) (j : Nat), i < len → o[i]? = some a → a.chain ≠ 0 → a.atype = ATTACH_MARK →
         target i a.chain len = some j →
         penOrigin (visible q len d) (outIdx d len i) =
           ((penOrigin (visible q len d) (outIdx d len j)).1 + a.xo,
            (penOrigin (visible q len d) (outIdx d len j)).2 + a.yo) :=
-  mark_coincide d o len rank hlen hacyc hmark
+  mark_coincide d o len rank _ hlen hacyc hmark (needOK_of_rank o len rank hacyc hdepth)
 
-/-- non-vacuity: base, mark on the base, mark on that mark (rank = index) -/
+/-- non-vacuity: base, mark on the base, mark on that mark (rank = index ≤ 64) -/
 example : ∃ (o : Array Pos) (rank : Nat → Nat),
     (∀ (k : Nat) (a : Pos) (j : Nat), o[k]? = some a → a.chain ≠ 0 → target k a.chain 3 = some j → rank j < rank k) ∧
+    (∀ k, k < 3 → rank k ≤ MAX_NESTING_LEVEL) ∧
     (∀ (k : Nat) (a : Pos) (j : Nat), o[k]? = some a → a.chain ≠ 0 → a.atype = ATTACH_MARK →
       target k a.chain 3 = some j → j < k) ∧ (∃ a, o[2]? = some a ∧ a.chain ≠ 0 ∧ a.atype = ATTACH_MARK) := by
   refine ⟨#[{ xa := 10 }, { xa := 5, xo := 3, chain := -1, atype := 1 }, { xa := 7, xo := 2, chain := -1, atype := 1 }],
-    id, ?_, ?_, ⟨_, rfl, by decide, rfl⟩⟩
+    id, ?_, (fun k hk => by simp [MAX_NESTING_LEVEL]; omega), ?_, ⟨_, rfl, by decide, rfl⟩⟩
   all_goals
     intro k a j hk hc
     have hk3 : k < 3 := lt_of_get? hk
@@ -58,45 +61,69 @@ example : ∃ (o : Array Pos) (rank : Nat → Nat),
     rcases this with rfl | rfl | rfl <;> simp at hk <;> subst hk <;>
       first | (exfalso; exact hc rfl) | (simp [target]; intros; omega)
 
-/-- The same for a pure mark forest (no cursive links): no acyclicity witness is needed, marks attaching
-    backwards is all it takes. -/
+/-- The same without any depth restriction when every link points backwards (every mark forest, however
+    deep the mark-on-mark stacks are): the loop of `position_finish_offsets` runs left to right, so the glyph a
+    link points to is already resolved and one frame of the budget is enough. -/
 theorem C07_mark_coincide_forest (d : Dir) (o : Array Pos) (len : Nat) (hlen : len ≤ o.size)
     (hforest : ∀ (k : Nat) (a : Pos) (j : Nat), o[k]? = some a → a.chain ≠ 0 → target k a.chain len = some j →
       a.atype = ATTACH_MARK ∧ j < k) :
-    ∃ q dm, positionFinishOffsets o len d true = .ok (q, dm) ∧ dm ≤ nz o + 1 ∧
+    ∃ q dm, positionFinishOffsets o len d true = .ok (q, dm) ∧ dm ≤ MAX_NESTING_LEVEL + 1 ∧
       ∀ (i : Nat) (a : Pos) (j : Nat), i < len → o[i]? = some a → a.chain ≠ 0 →
         target i a.chain len = some j →
         penOrigin (visible q len d) (outIdx d len i) =
           ((penOrigin (visible q len d) (outIdx d len j)).1 + a.xo,
            (penOrigin (visible q len d) (outIdx d len j)).2 + a.yo) := by
-  obtain ⟨q, dm, h1, h2, h3⟩ := mark_coincide d o len id hlen
+  obtain ⟨q, dm, h1, h2, h3⟩ := mark_coincide d o len id _ hlen
     (fun k a j hk hc ht => (hforest k a j hk hc ht).2) (fun k a j hk hc _ ht => (hforest k a j hk hc ht).2)
+    (needOK_of_backward o len (fun k a j hk hc ht => (hforest k a j hk hc ht).2))
   exact ⟨q, dm, h1, h2, fun i a j hi hoi hc ht => h3 i a j hi hoi hc (hforest i a j hoi hc ht).1 ht⟩
 
-/-- `MarkArray::apply` stores exactly `base anchor − mark anchor` and a link to the glyph it was given
-    (as long as the distance fits the `i16` `attach_chain`: D13, second half). -/
+/-- `MarkArray::apply` attaches only glyphs at most `i16::MAX` positions apart (D13, second half, fixed), and then
+    stores exactly `base anchor − mark anchor` and an exact link to the glyph it was given. -/
 theorem C07_mark_apply_exact {p q : Array Pos} {idx gp : Nat} {mx my bx byy : Int} {a : Pos}
-    (h : markArrayApply p idx gp mx my bx byy = .ok q) (ha : p[idx]? = some a)
-    (hgp : gp < idx) (hr : idx - gp < 32768) :
+    (h : markArrayApply p idx gp mx my bx byy = .ok (some q)) (ha : p[idx]? = some a) (hgp : gp < idx) :
+    idx - gp ≤ CHAIN_MAX ∧
     q = put p idx { a with xo := bx - mx, yo := byy - my, atype := ATTACH_MARK, chain := (gp : Int) - (idx : Int) } ∧
     target idx ((gp : Int) - (idx : Int)) p.size = some gp :=
-  markArrayApply_spec h ha hgp hr
+  markArrayApply_spec h ha hgp
 
-example : (markArrayApply #[{}, {}] 1 0 3 4 10 20).toOption = some #[{}, { xo := 7, yo := 16, chain := -1, atype := 1 }] := by
+example : (markArrayApply #[{}, {}] 1 0 3 4 10 20).toOption = some (some #[{}, { xo := 7, yo := 16, chain := -1, atype := 1 }]) := by
   decide +kernel
 
-/-- … and a mark 32 768 glyphs after its base gets a wrapped (positive) link: the later
-    `assert!(j < i)` of `propagate_attachment_offsets` fires (D13, `attach_chain` is an `i16`). -/
-theorem known_C01_attach_chain_wraps : wrap16 ((0 : Int) - 32768) = -32768 ∧ wrap16 ((0 : Int) - 32769) = 32767 := by
-  decide
+/-- No wrapped link is ever stored (was: `known_C01_attach_chain_wraps`): if every `attach_chain` of the buffer
+    is a genuine distance (|chain| ≤ `i16::MAX`, true after `position_start`), it still is after
+    `MarkArray::apply` … -/
+theorem C01_attach_chain_mark {p q : Array Pos} {idx gp : Nat} {mx my bx byy : Int}
+    (h : markArrayApply p idx gp mx my bx byy = .ok (some q)) (hp : ChainOK p) : ChainOK q :=
+  markArrayApply_chainOK h hp
 
-/-- Cursive attachment, cross axis, and what `position_finish_offsets` leaves alone: advances never change,
-    unattached glyphs keep their offsets, a cursively attached glyph keeps its main-axis offset and sits
-    `a.yo` (horizontal; `a.xo` vertical) away from its parent's final cross-axis offset, where `a.yo` is the
-    `±(entry − exit)` stored by the lookup. -/
+/-- … and after a cursive attachment, including the re-rooting of an existing chain by
+    `reverse_cursive_minor_offset` (whose `i16` negation therefore never overflows). -/
+theorem C01_attach_chain_cursive {p q : Array Pos} {i j dep : Nat} {d : Dir} {f : Bool} {enX enY exX exY : Int}
+    (h : cursiveApply p i j d f enX enY exX exY = .ok (some (q, dep))) (hp : ChainOK p) : ChainOK q :=
+  cursiveApply_chainOK h hp
+
+/-- a base 32 768 or more glyphs before the mark is not attached at all (no link, no offset) -/
+theorem C01_attach_chain_far (p : Array Pos) (idx gp : Nat) (mx my bx byy : Int) (h : gp + CHAIN_MAX < idx) :
+    markArrayApply p idx gp mx my bx byy = .ok none := by
+  unfold markArrayApply
+  have : ((gp : Int) - (idx : Int)).natAbs > CHAIN_MAX := by omega
+  simp [this]
+
+example : ChainOK #[{}, { chain := -1, atype := 1 }] := by
+  intro k b hk
+  have : k < 2 := lt_of_get? hk
+  have : k = 0 ∨ k = 1 := by omega
+  rcases this with rfl | rfl <;> simp at hk <;> subst hk <;> simp [CHAIN_MAX]
+
+/-- Cursive attachment, cross axis, and what `position_finish_offsets` leaves alone (chains of at most 64
+    links): advances never change, unattached glyphs keep their offsets, a cursively attached glyph keeps its
+    main-axis offset and sits `a.yo` (horizontal; `a.xo` vertical) away from its parent's final cross-axis
+    offset, where `a.yo` is the `±(entry − exit)` stored by the lookup. -/
 theorem C07_cursive_cross (d : Dir) (o : Array Pos) (len : Nat) (rank : Nat → Nat) (hlen : len ≤ o.size)
     (hacyc : ∀ (k : Nat) (a : Pos) (j : Nat), o[k]? = some a → a.chain ≠ 0 → target k a.chain len = some j →
       rank j < rank k)
+    (hdepth : ∀ k, k < len → rank k ≤ MAX_NESTING_LEVEL)
     (hmark : ∀ (k : Nat) (a : Pos) (j : Nat), o[k]? = some a → a.chain ≠ 0 → a.atype = ATTACH_MARK →
       target k a.chain len = some j → j < k) :
     ∃ q dm, positionFinishOffsets o len d true = .ok (q, dm) ∧ q.size = o.size ∧
@@ -105,15 +132,16 @@ theorem C07_cursive_cross (d : Dir) (o : Array Pos) (len : Nat) (rank : Nat → 
       (∀ (i : Nat) (a : Pos) (j : Nat), i < len → o[i]? = some a → a.chain ≠ 0 → a.atype = ATTACH_CURSIVE →
         target i a.chain len = some j → ∃ b c, q[i]? = some b ∧ q[j]? = some c ∧
           (if d.isHorizontal then b.xo = a.xo ∧ b.yo = c.yo + a.yo else b.yo = a.yo ∧ b.xo = c.xo + a.xo)) :=
-  cursive_cross d o len rank hlen hacyc hmark
+  cursive_cross d o len rank _ hlen hacyc hmark (needOK_of_rank o len rank hacyc hdepth)
 
 /-- non-vacuity: three glyphs joined by forward cursive links (`rank k = 3 - k`), no marks -/
 example : ∃ (o : Array Pos) (rank : Nat → Nat),
     (∀ (k : Nat) (a : Pos) (j : Nat), o[k]? = some a → a.chain ≠ 0 → target k a.chain 3 = some j → rank j < rank k) ∧
+    (∀ k, k < 3 → rank k ≤ MAX_NESTING_LEVEL) ∧
     (∀ (k : Nat) (a : Pos) (j : Nat), o[k]? = some a → a.chain ≠ 0 → a.atype = ATTACH_MARK →
       target k a.chain 3 = some j → j < k) ∧ (∃ a, o[0]? = some a ∧ a.chain ≠ 0 ∧ a.atype = ATTACH_CURSIVE) := by
   refine ⟨#[{ xa := 10, yo := 3, chain := 1, atype := 2 }, { xa := 5, yo := -2, chain := 1, atype := 2 }, { xa := 7 }],
-    fun k => 3 - k, ?_, ?_, ⟨_, rfl, by decide, rfl⟩⟩
+    fun k => 3 - k, ?_, (fun k _ => by simp [MAX_NESTING_LEVEL]; omega), ?_, ⟨_, rfl, by decide, rfl⟩⟩
   all_goals
     intro k a j hk hc
     have hk3 : k < 3 := lt_of_get? hk
@@ -126,21 +154,21 @@ example : ∃ (o : Array Pos) (rank : Nat → Nat),
     lookup skipped between `i` and `j` have no advance. -/
 
 theorem C07_cursive_coincide_ltr {p q : Array Pos} {i j len dep : Nat} {f : Bool} {enX enY exX exY : Int}
-    (h : cursiveApply p i j .ltr f enX enY exX exY = .ok (q, dep)) (hij : i < j) (hj : j < len) (hl : len ≤ p.size)
+    (h : cursiveApply p i j .ltr f enX enY exX exY = .ok (some (q, dep))) (hij : i < j) (hj : j < len) (hl : len ≤ p.size)
     (hz : ∀ (k : Nat) (b : Pos), i < k → k < j → p[k]? = some b → b.xa = 0) :
     (penOrigin (visible q len .ltr) (outIdx .ltr len j)).1 + enX =
       (penOrigin (visible q len .ltr) (outIdx .ltr len i)).1 + exX :=
   cursive_coincide_ltr h hij hj hl hz
 
 theorem C07_cursive_coincide_rtl {p q : Array Pos} {i j len dep : Nat} {f : Bool} {enX enY exX exY : Int}
-    (h : cursiveApply p i j .rtl f enX enY exX exY = .ok (q, dep)) (hij : i < j) (hj : j < len) (hl : len ≤ p.size)
+    (h : cursiveApply p i j .rtl f enX enY exX exY = .ok (some (q, dep))) (hij : i < j) (hj : j < len) (hl : len ≤ p.size)
     (hz : ∀ (k : Nat) (b : Pos), i < k → k < j → p[k]? = some b → b.xa = 0) :
     (penOrigin (visible q len .rtl) (outIdx .rtl len j)).1 + enX =
       (penOrigin (visible q len .rtl) (outIdx .rtl len i)).1 + exX :=
   cursive_coincide_rtl h hij hj hl hz
 
 theorem C07_cursive_coincide_ttb {p q : Array Pos} {i j len dep : Nat} {f : Bool} {enX enY exX exY : Int}
-    (h : cursiveApply p i j .ttb f enX enY exX exY = .ok (q, dep)) (hij : i < j) (hj : j < len) (hl : len ≤ p.size)
+    (h : cursiveApply p i j .ttb f enX enY exX exY = .ok (some (q, dep))) (hij : i < j) (hj : j < len) (hl : len ≤ p.size)
     (hz : ∀ (k : Nat) (b : Pos), i < k → k < j → p[k]? = some b → b.ya = 0) :
     (penOrigin (visible q len .ttb) (outIdx .ttb len j)).2 + enY =
       (penOrigin (visible q len .ttb) (outIdx .ttb len i)).2 + exY :=
@@ -153,7 +181,7 @@ theorem C07_cursive_coincide_ttb {p q : Array Pos} {i j len dep : Nat} {f : Bool
    The code sets `pos[j].y_advance = entry_y` without `+ pos[j].y_offset` (RTL has the term), so the anchors
    are `pos[j].y_offset` apart.  Proved: the exact error term, and the coincidence when that offset is 0. -/
 theorem C07_cursive_coincide_btt_partial {p q : Array Pos} {i j len dep : Nat} {f : Bool} {enX enY exX exY : Int}
-    {pj : Pos} (h : cursiveApply p i j .btt f enX enY exX exY = .ok (q, dep)) (hij : i < j) (hj : j < len)
+    {pj : Pos} (h : cursiveApply p i j .btt f enX enY exX exY = .ok (some (q, dep))) (hij : i < j) (hj : j < len)
     (hl : len ≤ p.size) (hz : ∀ (k : Nat) (b : Pos), i < k → k < j → p[k]? = some b → b.ya = 0)
     (hpj : p[j]? = some pj) :
     (penOrigin (visible q len .btt) (outIdx .btt len j)).2 + enY =
@@ -163,13 +191,13 @@ theorem C07_cursive_coincide_btt_partial {p q : Array Pos} {i j len dep : Nat} {
 /-- witness: two glyphs, the entry-side glyph carries `y_offset = 5` (in vertical text `position_default`
     subtracts the vertical origin, so this is the normal case): the anchors end up 5 units apart. -/
 theorem known_C07_cursive_btt :
-    ∃ q dep, cursiveApply #[{ ya := -100 }, { ya := -100, yo := 5 }] 0 1 .btt true 0 30 0 40 = .ok (q, dep) ∧
+    ∃ q dep, cursiveApply #[{ ya := -100 }, { ya := -100, yo := 5 }] 0 1 .btt true 0 30 0 40 = .ok (some (q, dep)) ∧
       (penOrigin (visible q 2 .btt) (outIdx .btt 2 1)).2 + 30 ≠ (penOrigin (visible q 2 .btt) (outIdx .btt 2 0)).2 + 40 := by
   refine ⟨_, _, rfl, ?_⟩
   decide +kernel
 
 /-- non-vacuity of the four cursive theorems (one application on two glyphs succeeds in every direction) -/
-example : ∀ d : Dir, ∃ q dep, cursiveApply #[{ xa := 10, ya := 3 }, { xa := 20, xo := 4, yo := 1 }] 0 1 d false 1 2 3 4 = .ok (q, dep) := by
+example : ∀ d : Dir, ∃ q dep, cursiveApply #[{ xa := 10, ya := 3 }, { xa := 20, xo := 4, yo := 1 }] 0 1 d false 1 2 3 4 = .ok (some (q, dep)) := by
   intro d; cases d <;> exact ⟨_, _, rfl⟩
 
 /-! ## value records -/
@@ -199,28 +227,50 @@ theorem C07_value_frame {v : ValueRecord} {d : Dir} {p q : Array Pos} {idx : Nat
     obtain ⟨rfl, _⟩ := h
     exact ⟨by simp, fun k hk => put_get?_ne _ _ (Ne.symm hk)⟩
 
-/-! ## recursion depth (C01; defect D13: no nesting limit) -/
+/-! ## recursion depth (C01; D13 fixed: `nesting_level` budget) -/
 
-/-- The model's fuel is never exhausted and the recursion depth of one `propagate_attachment_offsets`
-    call is at most the number of glyphs with a non-zero `attach_chain`, plus one — for EVERY array
-    (cycles, out-of-range links and all).  So the crate's recursion terminates, but only because each
-    frame zeroes a link; nothing bounds the depth by a constant. -/
-theorem C01_propagate_depth (p : Array Pos) (len i : Nat) (d : Dir) :
-    propagate (fuelFor p) p len i d ≠ .error .fuel ∧
-    ∀ q dep, propagate (fuelFor p) p len i d = .ok (q, dep) → dep ≤ nz p + 1 ∧ nz q ≤ nz p ∧ q.size = p.size := by
-  refine ⟨propagate_fuel len d _ p i (by have := nz_le_size p; unfold fuelFor; omega), ?_⟩
-  intro q dep h
-  obtain ⟨h1, h2, _, h4, _⟩ := propagate_basic len d _ _ _ _ _ h
-  exact ⟨h4, h2, h1⟩
+/-- One `propagate_attachment_offsets` call with budget `nl` nests at most `nl + 1` frames — for EVERY array
+    (cycles, out-of-range links and all); it never grows the array or the number of pending links. -/
+theorem C01_propagate_depth (p q : Array Pos) (len i nl dep : Nat) (d : Dir)
+    (h : propagate p len i d nl = .ok (q, dep)) :
+    dep ≤ nl + 1 ∧ dep ≤ nz p + 1 ∧ nz q ≤ nz p ∧ q.size = p.size := by
+  obtain ⟨h1, h2, _, h4, h5, _⟩ := propagate_basic len d _ _ _ _ _ h
+  exact ⟨h5, h4, h2, h1⟩
 
-/- Full statement wanted by C01 (FALSE of the current code: there is no `nesting_level` parameter):
-   theorem C01_depth_bound : positionFinishOffsets p len d true = .ok (q, dm) → dm ≤ 64 -/
-/-- counter-theorem (D13): for every `n` there is an `n`-glyph buffer — a run of forward cursive links, what a
-    RightToLeft-flagged cursive lookup builds on a long joined run — on which `position_finish_offsets` nests
-    at least `n` frames deep. -/
-theorem known_C01_propagate_unbounded (n : Nat) (hn : 1 ≤ n) (d : Dir) :
-    ∃ (p : Array Pos), p.size = n ∧ ∃ q dm, positionFinishOffsets p n d true = .ok (q, dm) ∧ n ≤ dm := by
-  refine ⟨fwdChain n, by simp [fwdChain], fwdChain_depth n hn d⟩
+example : ∃ q dep, propagate #[{}, { chain := -1, atype := 1 }] 2 1 .ltr 64 = .ok (q, dep) := ⟨_, _, rfl⟩
+
+/-- `position_finish_offsets` never nests deeper than `MAX_NESTING_LEVEL + 1` = 65 frames, whatever the buffer
+    holds (was false before the fix: `known_C01_propagate_unbounded`). -/
+theorem C01_depth_bound (p q : Array Pos) (len dm : Nat) (d : Dir) (fl : Bool)
+    (h : positionFinishOffsets p len d fl = .ok (q, dm)) : dm ≤ MAX_NESTING_LEVEL + 1 ∧ q.size = p.size := by
+  unfold positionFinishOffsets at h
+  split at h
+  · have := finishLoop_depth len d _ _ _ _ _ _ h
+    exact ⟨by omega, this.2⟩
+  · simp only [Except.ok.injEq, Prod.mk.injEq] at h
+    obtain ⟨rfl, rfl⟩ := h
+    exact ⟨by omega, rfl⟩
+
+example : ∃ q dm, positionFinishOffsets #[{}, { chain := -1, atype := 1 }] 2 .ltr true = .ok (q, dm) := ⟨_, _, rfl⟩
+
+/- Full statement wanted by C01 for the second recursion of this core (FALSE of the current code, as in HarfBuzz:
+   `reverse_cursive_minor_offset` takes no `nesting_level`):
+   theorem C01_reverse_cursive_depth : reverseCursiveMinorOffset (fuelFor p) p i d np = .ok (q, dep) → dep ≤ 64 + 1
+   Proved instead: the depth is at most the number of pending links + 1 (so it terminates) … -/
+theorem C01_reverse_cursive_depth_partial (p q : Array Pos) (i np dep : Nat) (d : Dir)
+    (h : reverseCursiveMinorOffset (fuelFor p) p i d np = .ok (q, dep)) : dep ≤ nz p + 1 ∧ q.size = p.size := by
+  obtain ⟨h1, h2⟩ := reverseCursive_main d np _ _ _ _ _ h
+  exact ⟨h2, h1.1⟩
+
+example : ∃ q dep, reverseCursiveMinorOffset (fuelFor #[{ chain := 1, atype := 2 }, {}]) #[{ chain := 1, atype := 2 }, {}] 0 .ltr 5
+    = .ok (q, dep) := ⟨_, _, rfl⟩
+
+/-- … and the counter-theorem: for every `n` there is an `n`-glyph buffer (a run of forward cursive links, what a
+    RightToLeft-flagged cursive lookup leaves behind) on which re-attaching glyph 1 to glyph 0 — what a second
+    cursive lookup without that flag does — nests `n - 1` frames deep. -/
+theorem known_C01_reverse_cursive_unbounded (n : Nat) (hn : 2 ≤ n) (d : Dir) :
+    ∃ (p : Array Pos), p.size = n ∧ ∃ q, reverseCursiveMinorOffset (fuelFor p) p 1 d 0 = .ok (q, n - 1) :=
+  ⟨fwdChain n, by simp [fwdChain], fwdChain_reverse_depth n hn d⟩
 
 end RbModel.Gpos
 
@@ -323,10 +373,10 @@ example : ∀ (t : Nat) (k : Nat) (v : Int), (#[(65538, -10)] : Array (Nat × In
     · rw [Array.getElem?_eq_none (by simp; omega)] at h; cases h
   subst this; simp at h; omega
 
-/-- Kerning not requested, forward text, no state-machine subtable: the whole `kern` pass changes neither
-    the glyph order nor any advance / offset.  (Backward text: see `known_C02_kern_bracket`.) -/
+/-- Kerning not requested, no state-machine subtable: the whole `kern` pass changes neither the glyph order
+    nor any advance / offset — in every direction (needed D3 fixed). -/
 theorem C07_kern_off (subs : List KSub) (mask : Nat) (d : Dir) (sm : KSub → KBuf → KBuf) (b b' : KBuf)
-    (hf : d.isForward = true) (hs : ∀ s ∈ subs, s.stateMachine = false)
+    (hs : ∀ s ∈ subs, s.stateMachine = false)
     (h : kernDriver subs false mask d sm b = .ok b') :
     b'.infos = b.infos ∧ b'.len = b.len ∧ b'.pos.map metrics = b.pos.map metrics := by
   unfold kernDriver at h
@@ -334,22 +384,20 @@ theorem C07_kern_off (subs : List KSub) (mask : Nat) (d : Dir) (sm : KSub → KB
   · cases h
   · rename_i st hst
     simp only [Except.ok.injEq] at h; subst h
-    exact kernDriver_off mask d sm hf subs false b st hs hst
+    exact kernDriver_off mask d sm subs false b st hs hst
 
-example : (kernDriver [{ pairs := #[(65538, -10)] }] false 0 .ltr (fun _ b => b)
+/-- the former D3 witness (right-to-left, `kern` switched off, one format-0 subtable) now keeps the order -/
+example : (kernDriver [{ horizontal := true, pairs := #[(65538, -10)] }] false 0 .rtl (fun _ b => b)
     { infos := #[{ gid := 1, mask := 1 }, { gid := 2, mask := 1 }], pos := #[{ xa := 10 }, { xa := 20 }], len := 2 }).toOption.map
       (fun b => (b.infos.toList.map (·.gid), b.pos)) = some ([1, 2], #[{ xa := 10 }, { xa := 20 }]) := by
   decide +kernel
 
-/-! ## the reverse bracket of `hb_ot_layout_kern` (C02; defect D3) -/
+/-! ## the reverse bracket of `hb_ot_layout_kern` (C02; D3 fixed) -/
 
-/- Full statement (FALSE of the current code, see `known_C02_kern_bracket`):
-   theorem C02_bracket (hsm : ∀ s b, (sm s b).infos = b.infos ∧ (sm s b).len = b.len) (hlen : b.len ≤ b.infos.size)
-       (h : kernDriver subs requested mask d sm b = .ok b') : b'.infos = b.infos ∧ b'.len = b.len
-   Proved: the same with the extra hypothesis "forward text, or kerning requested". -/
-theorem C02_bracket_partial (subs : List KSub) (requested : Bool) (mask : Nat) (d : Dir) (sm : KSub → KBuf → KBuf)
-    (b b' : KBuf) (hsm : ∀ s b, (sm s b).infos = b.infos ∧ (sm s b).len = b.len)
-    (hok : d.isForward = true ∨ requested = true) (hlen : b.len ≤ b.infos.size)
+/-- The kern driver returns the glyphs in the order it received them: the two `buffer.reverse()` calls always
+    come in pairs (for every subtable list, direction, kerning on or off, any order-preserving state machine). -/
+theorem C02_bracket (subs : List KSub) (requested : Bool) (mask : Nat) (d : Dir) (sm : KSub → KBuf → KBuf)
+    (b b' : KBuf) (hsm : ∀ s b, (sm s b).infos = b.infos ∧ (sm s b).len = b.len) (hlen : b.len ≤ b.infos.size)
     (h : kernDriver subs requested mask d sm b = .ok b') :
     b'.infos = b.infos ∧ b'.len = b.len := by
   unfold kernDriver at h
@@ -357,25 +405,15 @@ theorem C02_bracket_partial (subs : List KSub) (requested : Bool) (mask : Nat) (
   · cases h
   · rename_i st hst
     simp only [Except.ok.injEq] at h; subst h
-    exact kernDriver_infos requested mask d sm hsm hok subs false b st hlen hst
+    exact kernDriver_infos requested mask d sm hsm subs false b st hlen hst
 
 /-- non-vacuity: the identity is an order-preserving state machine; requested kerning on RTL text -/
 example : (∀ (s : KSub) (b : KBuf), ((fun (_ : KSub) (b : KBuf) => b) s b).infos = b.infos ∧
-    ((fun (_ : KSub) (b : KBuf) => b) s b).len = b.len) ∧ (Dir.rtl.isForward = true ∨ true = true) ∧
+    ((fun (_ : KSub) (b : KBuf) => b) s b).len = b.len) ∧
     (kernDriver [{ pairs := #[(65538, -10)] }] true 1 .rtl (fun _ b => b)
       { infos := #[{ gid := 1, mask := 1 }, { gid := 2, mask := 1 }], pos := #[{ xa := 10 }, { xa := 20 }], len := 2 }).toOption.map
         (fun b => b.infos.toList.map (·.gid)) = some [1, 2] := by
-  refine ⟨fun _ _ => ⟨rfl, rfl⟩, Or.inr rfl, ?_⟩
-  decide +kernel
-
-/-- counter-theorem (D3): right-to-left text, `kern` feature switched off, one ordinary format-0 subtable:
-    the `continue` after the first `buffer.reverse()` skips the second one — the driver returns the two glyphs
-    in swapped order (and `position()`'s final reverse then yields logical instead of visual order). -/
-theorem known_C02_kern_bracket :
-    (match kernDriver [{ horizontal := true, pairs := #[(65538, -10)] }] false 0 .rtl (fun _ b => b)
-        { infos := #[{ gid := 1, mask := 1 }, { gid := 2, mask := 1 }], pos := #[{ xa := 10 }, { xa := 20 }], len := 2 } with
-     | .ok b => b.infos.toList.map (·.gid)
-     | .error _ => []) = [2, 1] := by
+  refine ⟨fun _ _ => ⟨rfl, rfl⟩, ?_⟩
   decide +kernel
 
 end RbModel.Kern
